@@ -193,13 +193,15 @@ func randomVariant(r *hx.Rng, n, t, ph int) string {
 				"noS", "noC", "cm", "cp", "h"}))
 		case 4, 8:
 			mods = append(mods, hx.Pick(r, []string{
-				fmt.Sprintf("acc%d", j), fmt.Sprintf("acc%d", j), fmt.Sprintf("accw%d", j), fmt.Sprintf("drop%d", j), "h"}))
+				fmt.Sprintf("acc%d", j), fmt.Sprintf("acc%d", j), fmt.Sprintf("accw%d", j), fmt.Sprintf("drop%d", j), "h",
+				fmt.Sprintf("acc%d+ox%d", j, j)}))
 		case 7:
 			mods = append(mods, hx.Pick(r, []string{
-				"pt" + dots(subset(r, n, t)), "pt" + dots(subset(r, n, t)), "pt" + dots(subset(r, n, t)), "pm", "pp", "h"}))
+				"pt" + dots(subset(r, n, t)), "pt" + dots(subset(r, n, t)), "pt" + dots(subset(r, n, t)), "pm", "pp", "h",
+				"px" + dots(subset(r, n, t+1))}))
 		case 10:
 			mods = append(mods, hx.Pick(r, []string{
-				fmt.Sprintf("rev%d", j), fmt.Sprintf("revw%d", j), fmt.Sprintf("drop%d", j), "h"}))
+				fmt.Sprintf("rev%d", j), fmt.Sprintf("revw%d", j), fmt.Sprintf("drop%d", j), "h", fmt.Sprintf("ox%d", j)}))
 		}
 	}
 	return strings.Join(mods, "+")
@@ -228,7 +230,7 @@ func genOne(r *hx.Rng, tier string) string {
 	sort.Ints(corrupt)
 	dirs := map[[2]int]string{}
 	// recipe families
-	switch r.Intn(18) {
+	switch r.Intn(19) {
 	case 0: // crash from some phase on
 		for _, c := range corrupt {
 			p0 := hx.Pick(r, sendPhases)
@@ -321,6 +323,24 @@ func genOne(r *hx.Rng, tier string) string {
 			}
 		} else {
 			dirs[[2]int{corrupt[0], 7}] = "s"
+		}
+	case 13: // higher-degree points valid for every honest member; the other corrupt members do not accuse
+		a := corrupt[0]
+		var hon []int
+		for i := 1; i <= n; i++ {
+			isC := false
+			for _, c := range corrupt {
+				if c == i {
+					isC = true
+				}
+			}
+			if !isC {
+				hon = append(hon, i)
+			}
+		}
+		dirs[[2]int{a, 7}] = "px" + dots(hon)
+		for _, b := range corrupt[1:] {
+			dirs[[2]int{b, 8}] = fmt.Sprintf("drop%d", a)
 		}
 	case 7: // corrupt-to-corrupt misbehaviour: only a corrupt member can (truthfully or not) accuse
 		if len(corrupt) > 1 {
